@@ -55,6 +55,10 @@ TEMPLATES = {
     "loopfilter_with_include": "{% for x in items if x != 2 %}{% include 'inc2' %}{{ f('1') }}{% endfor %}",
     "loopfilter_with_block": "{% for x in items if x != 2 %}{% block a scoped %}{{ x }}{{ f('1') }}{% endblock %}{% endfor %}",
     "loopfilter_recursive_in_macro": "{% macro m() %}{% for n in tree if n.v != 9 recursive %}{{ n.v }}{{ f('1') }}{% if n.c %}({{ loop(n.c) }}){% endif %}{% endfor %}{% endmacro %}{{ m() }}",
+    "cond_extends": "{% if lay %}{% extends lay %}{% endif %}{% block a %}ca{{ f('1') }}{% endblock %}x{{ f('2') }}",
+    "cond_extends_mid": "{% extends 'cond_extends' %}{% block a %}ga{{ f('g') }}{{ super() }}{% endblock %}",
+    "dyn_extends": "{% extends lay %}{% block a %}da{{ f('1') }}{{ super() }}{% endblock %}{% block c %}dc{% endblock %}",
+    "expr_extends": "{% extends lay if lay else 'base' %}{% block a %}ea{{ f('1') }}{% endblock %}",
     "loop_agen": "{% for x in agen(2) %}{{ x }}{{ f('1') }}{% endfor %}z",
     "loop_agen_length": "{% for x in agen(2) %}{{ loop.length }}{{ f('1') }}{% endfor %}",
     "loop_break": "{% for x in items %}{{ f('1') }}{% if x == 2 %}{% break %}{% endif %}{{ x }}{% endfor %}z",
@@ -112,7 +116,7 @@ def make_data():
             self.v = v
             self.c = list(c)
 
-    return {"f": f, "g": g, "agen": agen, "items": [1, 2, 3], "tree": [N(1, [N(2), N(3, [N(4)])]), N(5)]}
+    return {"f": f, "g": g, "agen": agen, "lay": "base", "items": [1, 2, 3], "tree": [N(1, [N(2), N(3, [N(4)])]), N(5)]}
 
 
 def classify(fn, name, src_root):
